@@ -35,11 +35,19 @@ T_Run ==
   /\ parser' = "none" /\ rstate' = "none" /\ event' = "none" /\ pc' = "idle"
   /\ bounce' = 0 /\ bufsize' = 0 /\ total' = 0 /\ capStart' = 0 /\ capLen' = 0 /\ copied' = -1 /\ fault' = "none"
 
+\* a character handed from the UTF-16/32 decoders to the UTF-8 encoder is a Unicode scalar value
+\* (anything else is an invalid `char`: undefined behaviour before it is ever written)
+T_EncChar ==
+  /\ Ev("enc_char")
+  /\ Rec[l].a >= 0 /\ Rec[l].a <= 1114111 /\ ~(Rec[l].a >= 55296 /\ Rec[l].a <= 57343)
+  /\ UNCHANGED <<cvars, outcome>>
+
 T_ParserNew == Ev("parser_new") /\ ParserNew /\ UNCHANGED outcome
 
 T_RhEnter ==
   /\ Ev("rh_enter")
   /\ parser = "live" /\ rstate = "live" /\ event = "none" /\ pc \in {"idle", "parsing"} /\ fault = "none"
+  /\ Rec[l].b = Rec[l].a                     \* the bounce buffer is resized to exactly what libyaml offers
   /\ pc' = "handler" /\ bufsize' = Rec[l].a /\ bounce' = Rec[l].a /\ copied' = -1
   /\ UNCHANGED <<parser, rstate, event, total, capStart, capLen, fault, outcome>>
 
@@ -117,7 +125,7 @@ T_ParserDelete ==
 
 T_ReadStateFree == Ev("readstate_free") /\ ReadStateFree /\ UNCHANGED outcome
 
-TNext == T_Run \/ T_ParserNew \/ T_RhEnter \/ T_ChunkRead \/ T_ChunkReadOver \/ T_RhCopy \/ T_RhFail \/ T_EventNew \/ T_EventFail
+TNext == T_Run \/ T_EncChar \/ T_ParserNew \/ T_RhEnter \/ T_ChunkRead \/ T_ChunkReadOver \/ T_RhCopy \/ T_RhFail \/ T_EventNew \/ T_EventFail
          \/ T_Cut \/ T_OtherArm \/ T_EventDelete \/ T_ParserDelete \/ T_ReadStateFree
 TSpec == TInit /\ [][TNext]_tvars
 
